@@ -46,7 +46,7 @@
 static const char *const r_level_name[7] = {"NONE", "FATAL", "ERROR", "WARN", "INFO", "DEBUG", "TRACE"};
 
 /* the no-alloc logger's fixed line buffer ("Log lines larger than the internal constant are truncated") */
-#define NOALLOC_CAP 8192
+#define NOALLOC_CAP_SHIPPED 8192 /* only sizes the harness's own buffers; the library's cut point is measured, see noalloc_cap() */
 
 #define SUBJ40 "subject-name-that-is-exactly-40-chars-xx"
 /* log subjects registered by the harness through the public registration call (package slot 9) */
@@ -155,7 +155,7 @@ struct lres {
     int cut_region;       /* 0 level 1 timestamp 2 thread id 3 subject 4 separator 5 message (when cut) */
 };
 
-static char lbuf[NOALLOC_CAP + 1024 + 8400];
+static char lbuf[NOALLOC_CAP_SHIPPED + 1024 + 8400];
 static const char *show_line(const uint8_t *p, size_t n) {
     static char o[1400];
     size_t j = 0;
@@ -427,12 +427,41 @@ out:
 }
 
 /* ------------------------------------------------------------------ (b) noalloc -------------------------- */
-static unsigned noalloc_nlens(void) { return v_thorough() ? 8401u : 301u + 145u + 401u; }
+/* logging.h: "log lines larger than the internal constant are truncated" - the constant is the library's business, so the
+ * harness measures it (once per process): the length at which an over-long message is cut.  Everything else is judged
+ * against that: shorter lines arrive whole, longer ones are cut there, every line ends in one newline. */
+static size_t g_noalloc_cap;
+static size_t noalloc_cap(void) {
+    if (g_noalloc_cap) return g_noalloc_cap;
+    g_noalloc_cap = SIZE_MAX / 2;
+    char *mptr = NULL;
+    size_t msz = 0;
+    FILE *fp = open_memstream(&mptr, &msz);
+    struct aws_logger lg;
+    struct aws_logger_standard_options lo = {.level = AWS_LL_TRACE, .filename = NULL, .file = fp};
+    if (fp && aws_logger_init_noalloc(&lg, aws_default_allocator(), &lo) == AWS_OP_SUCCESS) {
+        static char big[40001];
+        memset(big, 'x', sizeof(big) - 1);
+        lg.vtable->log(&lg, AWS_LL_INFO, subj_id[1], "%s", big);
+        fflush(fp);
+        if (msz > 0 && msz < 40000) g_noalloc_cap = msz + 1; /* cut line of cap-1 bytes, newline included */
+        aws_logger_clean_up(&lg);
+    }
+    if (fp) fclose(fp);
+    free(mptr);
+    return g_noalloc_cap;
+}
+static size_t noalloc_edge(void) { /* first message length of the boundary region: 192 below the measured cut point */
+    size_t c = noalloc_cap();
+    if (c > 16384) c = NOALLOC_CAP_SHIPPED; /* no cut point within reach: probe the shipped one anyway */
+    return c > 192 ? c - 192 : 0;
+}
+static unsigned noalloc_nlens(void) { return v_thorough() ? (unsigned)(noalloc_edge() + 401u) : 301u + 145u + 401u; }
 static size_t noalloc_len(unsigned d) {
     if (v_thorough()) return d;
     if (d < 301) return d;
-    if (d < 446) return 353 + (size_t)(d - 301) * 53; /* 353 .. 7985 */
-    return 8000 + (d - 446);
+    if (d < 446) return 353 + (size_t)(d - 301) * (noalloc_edge() > 400 ? (noalloc_edge() - 353) / 145 : 1); /* 353 .. just below the edge */
+    return noalloc_edge() + (d - 446);
 }
 static uint64_t noalloc_total(void) { return (uint64_t)noalloc_nlens() * 7 * 4 * 2; }
 static void noalloc_eval(uint64_t index, void *ctx) {
@@ -461,7 +490,7 @@ static void noalloc_eval(uint64_t index, void *ctx) {
         bee_fail("init-failed", "%s: open_memstream / aws_logger_init_noalloc failed", what);
         goto out;
     }
-    struct lx e = {.level = level, .subject = subj_name[sj], .msg = msg, .msglen = msglen, .df = 1, .cap = NOALLOC_CAP, .what = what};
+    struct lx e = {.level = level, .subject = subj_name[sj], .msg = msg, .msglen = msglen, .df = 1, .cap = noalloc_cap(), .what = what};
     e.t_lo = now_s();
     int rc = supply ? lg.vtable->log(&lg, (enum aws_log_level)level, subj_id[sj], fmt)
                     : lg.vtable->log(&lg, (enum aws_log_level)level, subj_id[sj], fmt, (const char *)msg);
@@ -482,7 +511,7 @@ static void noalloc_eval(uint64_t index, void *ctx) {
         struct lx e2 = e;
         e2.level = AWS_LL_INFO, e2.subject = subj_name[1], e2.msg = (const uint8_t *)"tail 7", e2.msglen = 6, e2.what = what2;
         check_line((const uint8_t *)mptr + n1, n2 - n1, &e2, &r);
-        if ((msglen == 100 || msglen == 8200) && level == 2 && sj == 1 && !supply) v_sample("noalloc: %s -> %s", what, show_line((uint8_t *)mptr, n1));
+        if ((msglen == 100 || msglen == noalloc_edge() + 200) && level == 2 && sj == 1 && !supply) v_sample("noalloc: %s -> %s", what, show_line((uint8_t *)mptr, n1));
     }
     aws_logger_clean_up(&lg);
     if (ga.live_blocks != 0) bee_fail("allocator-imbalance", "%s: %" PRIu64 " block(s) live after clean-up", what, ga.live_blocks);
@@ -677,7 +706,7 @@ static void gate_eval(uint64_t index, void *ctx) {
         int explen = snprintf(exp, sizeof(exp), "call %d at %s", k, r_level_name[c[k]]);
         snprintf(what, sizeof(what), "%s: call %d", prog, k);
         struct lx e = {.level = c[k], .subject = subj_name[1 + (k & 1)], .msg = (const uint8_t *)exp, .msglen = (size_t)explen,
-                       .df = R.df, .cap = kind ? NOALLOC_CAP : 0, .what = what};
+                       .df = R.df, .cap = kind ? noalloc_cap() : 0, .what = what};
         e.t_lo = now_s();
         if (path == 0 && c[k] == AWS_LL_NONE) {
             /* AWS_LOGF asserts log_level > 0 and there is no AWS_LOGF_NONE: not a call the macros offer */
@@ -756,7 +785,7 @@ static void shapes_eval(uint64_t index, void *ctx) {
         bee_fail("init-failed", "logger set-up failed");
         return;
     }
-    struct lx e = {.level = level, .subject = subj_name[1], .df = R.df, .cap = kind ? NOALLOC_CAP : 0, .what = what};
+    struct lx e = {.level = level, .subject = subj_name[1], .df = R.df, .cap = kind ? noalloc_cap() : 0, .what = what};
     e.t_lo = now_s();
 #define SHAPE(n, ...)                                                                                            \
     case n:                                                                                                      \
